@@ -82,7 +82,7 @@ def check(res, U, p, P, W, rep):
         res.violation("shape", f"{where}: returned {type(D).__name__}", **tags)
         return
     lim = [lib.to_frac(x) for x in D.knotvector.limits]
-    ok_lim = (lim == [U[0], U[-1]]) if rep in ("frac", "int") else all(lib.close(g, e, 1e-12) for g, e in zip(lim, [U[0], U[-1]]))
+    ok_lim = (lim == [U[0], U[-1]]) if rep in ("frac", "int", "npint") else all(lib.close(g, e, 1e-12) for g, e in zip(lim, [U[0], U[-1]]))
     if not ok_lim:
         res.violation("interval", f"{where}: derivative lives on {D.knotvector.limits}", **tags)
         return
@@ -131,6 +131,7 @@ def run_case(case, res):
         check(res, U, p, P, None, rep)
     if all(k.denominator == 1 for k in U):
         check(res, U, p, gen, None, "int")  # integer knots and integer control points
+        check(res, U, p, gen, None, "npint")  # numpy.int64 knots
         for e in al.unit_vectors(n):
             check(res, U, p, e, None, "int")
     if rat:
